@@ -12,7 +12,7 @@
    radio frames is its composition with the theorems of C04 / C05 / C10. *)
 From Coq Require Import ZArith List Bool.
 From NV Require Import Base.Result Base.Bytes Base.PyPrims Model.Snep
-  Proofs.SnepChunks Proofs.SnepSched Proofs.Snep Proofs.SnepHo Gen.SnepK Bridge.Snep.
+  Proofs.SnepChunks Proofs.SnepSched Proofs.Snep Proofs.SnepHo Proofs.SnepApi Gen.SnepK Bridge.Snep.
 Import ListNotations.
 Open Scope Z_scope.
 
@@ -141,6 +141,22 @@ Theorem C06_handover_session_exact :
     (ho_results A app_ho a ops) (ho_app A app_ho a ops) (ho_log A app_ho a ops).
 Proof. exact handover_session_exact. Qed.
 Print Assumptions C06_handover_session_exact.
+
+(* --- one SnepClient object: an explicit session connect(s); requests; close() puts exactly these
+   requests on one connection to s - after ANY earlier history of the object (any value of its
+   release_connection flag, with or without a connection still open); a request without a
+   connection gets its own connection to the default server *)
+Theorem C06_client_session_routed : forall c s ops,
+  snd (api_run c (ApiConnect s :: map ApiRequest ops ++ [ApiClose])) =
+  snd (api_close c) ++ ActConnect s :: map ActRequest ops ++ [ActClose] /\
+  o_sock (fst (api_run c (ApiConnect s :: map ApiRequest ops ++ [ApiClose]))) = None.
+Proof. exact api_session_routed. Qed.
+Print Assumptions C06_client_session_routed.
+Theorem C06_client_oneshot_routed : forall rel op,
+  api_step {| o_sock := None; o_release := rel |} (ApiRequest op) =
+  ({| o_sock := None; o_release := true |}, [ActConnect DEFAULT_SERVICE; ActRequest op; ActClose]).
+Proof. exact api_oneshot_routed. Qed.
+Print Assumptions C06_client_oneshot_routed.
 
 (* the code before the repair fixes/c06-handover-server-request-reset.diff (reset = false) does
    not have this property: the second request on a connection is not delivered intact *)
